@@ -201,10 +201,10 @@ Proof.
       destruct (Z.compare_spec a3 b3), (Z.compare_spec b3 c3), (Z.compare_spec a3 c3); try lia; try congruence.
 Qed.
 
-(* rows whose keys are all comparable (no NULL, no NaN) are compared by a total preorder:
-   the order of their f64 keys *)
+(* rows whose keys are all comparable (no NaN; NULL allowed, it is the least) are compared by a
+   total preorder: NULL first, then the order of the f64 keys *)
 Definition key_rank (k : skey) : Z * Z * Z :=
-  match k with SF x => sf_rank x | SNull => (3, 0, 0) end.
+  match k with SF x => sf_rank x | SNull => (-3, 0, 0) end.
 Definition row_cmp_rank (a b : row) : comparison := lex3 (key_rank (snd a)) (key_rank (snd b)).
 
 Lemma row_cmp_rank_preorder : cmp_total_preorder row_cmp_rank.
@@ -218,10 +218,11 @@ Lemma row_cmp_is_rank : forall a b, key_comparable (snd a) = true -> key_compara
   row_cmp a b = row_cmp_rank a b.
 Proof.
   intros [ia ka] [ib kb]. cbn [snd]. intros Ha Hb. unfold row_cmp, row_cmp_rank, key_cmp. cbn [snd].
-  destruct ka as [|x], kb as [|y]; try discriminate.
-  cbn [key_rank]. rewrite SFcompare_rank; [reflexivity| |].
-  - intros ->. discriminate.
-  - intros ->. discriminate.
+  destruct ka as [|x], kb as [|y]; cbn [key_rank].
+  - reflexivity.
+  - destruct y as [[|]|[|]| |[|] m e]; try discriminate; reflexivity.
+  - destruct x as [[|]|[|]| |[|] m e]; try discriminate; reflexivity.
+  - rewrite SFcompare_rank; [reflexivity| |]; intros ->; discriminate.
 Qed.
 
 (* ------------------------------------------------------------------ comparisons that agree on the rows *)
@@ -280,19 +281,24 @@ Proof.
   - apply isort_sorted. apply row_cmp_rank_preorder.
 Qed.
 
-(* ------------------------------------------------------------------ the two recorded defects, on the model *)
-(* LIMIT 0 over a non-empty input: `state.heap[0]` on an empty Vec *)
-Lemma topk_limit0_panics_l : forall (A : Type) (cmp : A -> A -> comparison) x rows,
-  topk cmp 0 (x :: rows) = TPanic.
-Proof. intros. reflexivity. Qed.
+(* ------------------------------------------------------------------ the two repaired defects, on the model
+   (F-C24-1, fixed by 34f5e9d; F-C24-2, fixed by fec49c7): their witnesses now behave *)
+(* LIMIT 0 returns no row, whatever the input *)
+Lemma topk_limit0_empty_l : forall (A : Type) (cmp : A -> A -> comparison) rows,
+  topk cmp 0 rows = TOk [].
+Proof.
+  intros A cmp rows. unfold topk.
+  assert (H : topk_feed cmp 0 [] rows = TOk []).
+  { induction rows as [|x rows IH]; [reflexivity|]. cbn [topk_feed length Nat.ltb Nat.leb]. exact IH. }
+  rewrite H. reflexivity.
+Qed.
 
-(* a zero vector between two rows under `<=>`: its key is NULL, NULL compares Equal to both
-   neighbours, and the rows come back with the farther one (distance 2) before the nearer one
-   (distance 0) *)
-Lemma cosine_zero_vector_refuted_l :
+(* a zero vector between two rows under `<=>`: its key is NULL, NULL sorts first, the other
+   rows follow in distance order (before 34f5e9d the answer was [1; 2; 3]: distance 2 before 0) *)
+Lemma cosine_zero_vector_fixed_l :
   let rows := [(1, [-2; 0]); (2, [0; 0]); (3, [1; 0])] in
   let q := [1; 0] in
-  sql_order 1 q rows None = ROk [1; 2; 3] /\
+  sql_order 1 q rows None = ROk [2; 3; 1] /\
   cos_key [0; 0] q = SNull /\
-  key_cmp (cos_key [-2; 0] q) (cos_key [1; 0] q) = Gt.
+  key_cmp (cos_key [1; 0] q) (cos_key [-2; 0] q) = Lt.
 Proof. vm_compute. repeat split. Qed.
